@@ -306,6 +306,40 @@ def w_voice_emb(task):
     return acc
 
 
+def w_voice_emb_near_sync(task):
+    """valid EMB words around embedded bits that equal (or are one bit away from) the middle 32 bits of a SYNC constant: the
+    centre resembles a sync pattern without being one -- the dispatch on the 48 centre bits must still see embedded signalling"""
+    acc = Acc()
+    triples, fills = task
+    for cc, pi, lcss in triples:
+        e = emb_word(cc, pi, lcss)
+        for sname, sval in SYNC.items():
+            mid = format(sval, "048b")[8:40]
+            variants = [mid] + [mid[:i] + ("1" if mid[i] == "0" else "0") + mid[i + 1:] for i in range(32)]
+            for emb in variants:
+                center = e[:8] + emb + e[8:]
+                if center in SYNC_BITS:
+                    continue  # exactly a sync constant: handled by the corner enumeration
+                v = fills[(cc + lcss) % len(fills)]
+                full = v[:108] + center + v[108:]
+                case = {"cc": cc, "pi": pi, "lcss": lcss, "emb32": hex(int(emb, 2)), "near_sync": sname}
+                try:
+                    b = Burst.from_bits(bitarray(full), BurstTypes.Vocoder)
+                    out = b.as_bits().to01()
+                except Exception as ex:  # noqa: BLE001
+                    acc.violation("exception_voice_emb_near_sync:" + exc_sig(ex), case, repr(ex))
+                    acc.case()
+                    continue
+                if out != full:
+                    acc.violation("voice_emb_burst_near_sync_altered", {**case, "in": full, "out": out},
+                                  "voice burst whose embedded bits resemble a sync pattern does not survive parse-then-serialise")
+                elif not b.has_emb or b.emb is None or (b.emb.colour_code, b.emb.preemption_and_power_control_indicator.value,
+                                                        b.emb.link_control_start_stop.value) != (cc, pi, lcss):
+                    acc.violation("emb_near_sync_not_recognised", case)
+                acc.case(nontrivial=True, calls=2, outcome=sname, sample=case if len(acc.samples) < 1 else None)
+    return acc
+
+
 def run(only=None):
     rep = Report("C01")
     env.import_all_okdmr()
@@ -377,6 +411,12 @@ def run(only=None):
         s.declared = len(triples) * len(embs) * len(fills)
         for acc in par.pmap(w_voice_emb, tasks):
             s.merge(acc)
+        # near-sync family: 128 EMB words x 10 sync constants x (middle 32 bits + its 32 single-bit neighbours)
+        n_before = s.n
+        for acc in par.pmap(w_voice_emb_near_sync, [(c, fills) for c in par.split_list(triples, 64)]):
+            s.merge(acc)
+        s.declared += s.n - n_before
+        s.extra["near_sync_cases"] = s.n - n_before
         # corner: a sync constant whose outer 16 bits are a valid EMB word
         qrset = gf2.codeword_set("qr_16_7_6")
         corner = 0
